@@ -6,6 +6,9 @@ import z3
 from .values import Unsupported
 
 
+KNOW = "__knowledge__"
+
+
 class PathAbort(Exception):
     """The current path ends here (infeasible, or deliberately cut after an invariant check)."""
 
@@ -90,14 +93,19 @@ class Ctx:
         self.global_facts.append((term, label))
         self.assumed.add(label)
 
-    def assume(self, term, label=None):
+    def assume(self, term, label=None, know=True, decision=False):
+        """decision=True: a decision of the path (branch taken, loop element chosen) -- stored with label None.
+        Otherwise knowledge: an assumed library / callee contract fact, representation invariant of a fresh
+        value, invariant of a havoc'd loop state, imported lemma instance (label KNOW or a named label)."""
         if isinstance(term, bool):
             term = z3.BoolVal(term)
         t = z3.simplify(term)
         if z3.is_true(t):
             return
+        if not decision and not label:
+            label = KNOW
         self.pc.append((term, label))
-        if label:
+        if label and label is not KNOW:
             self.assumed.add(label)
         if not _has_quant(term):
             self.solver.add(term)
@@ -132,14 +140,14 @@ class Ctx:
         if idx < len(sc.prefix):
             c = sc.prefix[idx]
             sc.decisions.append((c, len(options), []))
-            self.assume(options[c])
+            self.assume(options[c], decision=True)
             return c
         feas = [i for i, o in enumerate(options) if self.feasible(o)]
         if not feas:
             raise PathAbort()
         c = feas[0]
         sc.decisions.append((c, len(options), feas[1:]))
-        self.assume(options[c])
+        self.assume(options[c], decision=True)
         return c
 
     def decide(self, term, site=""):
